@@ -436,7 +436,8 @@ class ZooSVGP(gpytorch.models.ApproximateGP):
         ds = recipe["data_seed"]
         lat = recipe.get("latents", 0)
         vbatch = torch.Size([lat]) if strat in ("lmc", "indep_mt") else torch.Size([])
-        z = make_inputs(ds + 11, [], m, d)
+        # variant 1: other initial inducing locations (they are parameters or buffers and travel in the state_dict)
+        z = make_inputs(ds + 11 + 1009 * variant, [], m, d)
 
         def dist(kind, num, batch=vbatch):
             if kind == "cholesky":
@@ -460,7 +461,7 @@ class ZooSVGP(gpytorch.models.ApproximateGP):
         elif strat == "batch_decoupled":
             vs = V.BatchDecoupledVariationalStrategy(self, z, vd, learn_inducing_locations=learn)
         elif strat == "orth_decoupled":
-            base_z = make_inputs(ds + 12, [], max(2, m - 1), d)
+            base_z = make_inputs(ds + 12 + 1009 * variant, [], max(2, m - 1), d)
             base = V.VariationalStrategy(self, base_z, V.CholeskyVariationalDistribution(base_z.shape[-2]), learn_inducing_locations=learn)
             vs = V.OrthogonallyDecoupledVariationalStrategy(base, z, V.DeltaVariationalDistribution(m))
         elif strat == "ciq":
@@ -469,7 +470,7 @@ class ZooSVGP(gpytorch.models.ApproximateGP):
             gs = recipe["grid_size"]
             vs = V.GridInterpolationVariationalStrategy(self, gs, [(-0.2, 1.2)] * d, dist(recipe["dist"], gs**d))
         elif strat == "nn":
-            # nearest-neighbour strategy: the inducing points are a constructor argument (not part of the state_dict)
+            # nearest-neighbour strategy: the inducing points are a buffer; the neighbour tables are derived from them
             vs = V.NNVariationalStrategy(self, z, V.MeanFieldVariationalDistribution(m), k=recipe.get("k", 2), training_batch_size=m)
         elif strat == "lmc":
             base = V.VariationalStrategy(self, z, vd, learn_inducing_locations=learn)
